@@ -20,6 +20,8 @@ add("C12","Bounded symbolic verification: slice registration is executed with sy
     MODEL_NOTE,TECH,"DESIGN.md §3 C12")
 add("C20","Bounded symbolic fault enumeration decided per fault: every single structural fault of the nine listed classes is injected at every applicable position of six well-formed base specs (values symbolic); real pyhf.Model construction must raise a pyhf exception, or - where the faulty spec still has a meaning as written - the accepted model's rates must equal, for all parameter values (solver-decided), the HistFactory formula of the spec as written; foreign exceptions, AssertionError and acceptance with dropped/mis-bound content are violations.",
     MODEL_NOTE+" Names are concrete; duplicates are injected concretely.",TECH+"; fault injection at every position","DESIGN.md §3 C20")
+add("C15","Bounded symbolic verification of the likelihood-function core of the property: for each rewrite (reorder, rename incl. POI, zero-yield sample, null systematic, channel split, sample merge, signal rescaling with mu->mu/k) the original and rewritten models are built from the same symbolic spec and the solver proves, for all parameter points and all data under the induced parameter/data correspondence, that the two log-densities consist of the same Poisson/Normal log terms with pairwise equal arguments (added terms being exactly the constant-normalisation constraints), that expected data correspond and that suggested inits/bounds/fixed correspond.",
+    MODEL_NOTE+" Numerical agreement of fits/CLs/limits across backends and optimisers (needs the real optimisers) is outside; wiring of inference onto logpdf is C05/C06/C08.",TECH+"; congruence by decomposition","DESIGN.md §3 C15")
 m={"version":1,"setup_cmd":"./setup.sh",
  "hooks":{"guard":"PYHF_VERIF","enable":"not needed: instrumentation is harness-side (custom tensor backend via pyhf.set_backend; module-attribute stubs)","baseline_off_cmd":BASE,"source_commits":[],"add_only":True},
  "engines":[{"name":"pyhf_smt","path":"pyhf_smt/","serves_properties":[c["property_id"] for c in checks],"kind_free_text":"symbolic tensor backend (z3 Real terms in numpy object arrays) + forking path explorer + cell-wise SMT equivalence + concrete replay"}],
